@@ -46,7 +46,7 @@ def _check(ctx, lens):
     impl_items = []
     for i in range(n + 2):
         try:
-            x = coll[i]
+            x = coll[np.int64(i)] if (i + len(lens)) % 3 == 0 else coll[i]      # numpy integers index like Python ones
             impl_items.append(ids.get(id(x), -1))
         except IndexError:
             impl_items.append(None)
@@ -54,6 +54,12 @@ def _check(ctx, lens):
                 n_mazes=int(coll.cfg.n_mazes), items=impl_items)
     case = dict(lens=list(lens))
     ctx.case(case, nontrivial=n > 0)
+    try:
+        it = [ids.get(id(m), -1) for m in coll]          # iteration is indexing 0, 1, ... until IndexError
+    except Exception as e:
+        it = f"{type(e).__name__}"
+    if it != list(range(n)):
+        ctx.violate(f"iterating over a collection with member lengths {list(lens)} yields items {it}, the concatenation of the members is 0..{n - 1}", dict(case, iteration=True))
     ctx.count(f"members={len(lens)}"); ctx.count(f"zeros={sum(1 for l in lens if l == 0)}")
     # ---- oracle on the real code (property statement itself)
     if impl["len"] != n or impl["mazes"] != list(range(n)) or impl["lengths"] != list(lens) or impl["n_mazes"] != n:
